@@ -13,6 +13,10 @@ CLAIMS = {
    text="TLC checks that the search loops of hijri_date.rs, transcribed as a state machine, compute the 30-year-cycle tabular calendar for every day within 62 Hijri years of the epoch; the real converter is swept over ALL 3,652,059 dates and every month start / irregularity / panic (lossless compression, ~124k events) is validated by TLC against the cycle definition, the civil weekday and the civil date",
    note="chrono's Gregorian calendar is cross-checked per event against Calendar.tla; the 'plain successor' compression is done by the harness",
    tech="TLA+ spec (HijriDefs/Hijri) + TLC model checking + exhaustive-domain trace validation", ref="§5 C17"),
+ "C18": dict(
+   text="TLC checks the construction state machine (parse -> range check -> accept/reject) for all 6 types x 12 value classes x 4 routes; every cell is concretised with exact bit patterns (bounds +-1 ulp, +-0, subnormals, NaN payloads, infinities, huge) and run through try_from / FromStr / serde_json / composite Location, Weather and Params documents; each recorded attempt (plus seeded random bit patterns) is judged by TLC from the logged IEEE bits against the documented bounds, incl. bit-identical read-back",
+   note="Rust float formatting and serde_json number printing are trusted to round-trip; for JSON routes the reference value is the number serde_json itself delivers for the literal",
+   tech="TLA+ spec (Bounded/BoundedDefs) + TLC model checking + decision-table replay + TLC trace validation on IEEE bit patterns", ref="§5 C18"),
 }
 NA_REASON = "check under construction in this round (DESIGN.md §8 build order); not yet claimed"
 
